@@ -200,6 +200,12 @@ func runGoRounds(key string, c goCase, s uciPeer) error {
 		if g.DrawEver() {
 			labels = append(labels, "claimable-draw")
 		}
+		if r.Pos != nil && len(r.Pos.text()) > 4096 {
+			labels = append(labels, "position-line-longer-than-4096-bytes")
+		}
+		if goKind(r.Go) == "wtime" && (strings.Contains(r.Go, "wtime 0") || strings.Contains(r.Go, "-50") || !strings.Contains(r.Go, "btime") || !strings.Contains(r.Go, "wtime")) {
+			labels = append(labels, "clock-without-budget")
+		}
 		if lastHadGo && r.Pos == nil {
 			labels = append(labels, "second-search-same-position")
 		}
@@ -260,6 +266,10 @@ func genGoLine(t *rapid.T, engine string) (string, bool) {
 		}
 		return line, true
 	case 4:
+		if rapid.IntRange(0, 2).Draw(t, "oddclock") == 0 {
+			// clocks that leave the side to move no budget: flag fallen, only one clock given
+			return rapid.SampledFrom([]string{"go wtime 0 btime 0", "go wtime 60000", "go btime 60000", "go wtime -50 btime -50", "go wtime 1 btime 1", "go wtime 0 btime 0 movestogo 1"}).Draw(t, "clock"), true
+		}
 		return "go infinite", false
 	case 5: // a timer that outlives its search
 		return fmt.Sprintf("go depth 1 movetime %d", rapid.SampledFrom([]int{20, 40}).Draw(t, "movetime")), true
@@ -291,6 +301,26 @@ func genGoCase(t *rapid.T) goCase {
 				p.FEN, p.Moves = gc.FEN, gc.Moves
 				if gc.FEN == oracle.InitialFEN {
 					p.FEN = ""
+				}
+			case 5: // a very long game on one line (GUIs resend the whole game every move)
+				if rapid.IntRange(0, 3).Draw(t, "long") == 0 {
+					lg := oracle.NewGame(oracle.MustFEN(oracle.InitialFEN))
+					var gc gen.GameCase
+					for k, n := 0, 820+rapid.IntRange(0, 400).Draw(t, "longplies"); k < n; k++ {
+						m, ok := gen.PickMove(t, lg, gen.Policy{0, 1, 0, 0, 1, 1, 0, 2, 1, 12})
+						if !ok {
+							break
+						}
+						lg.Push(m)
+						gc.Moves = append(gc.Moves, m.String())
+					}
+					p.Moves = gc.Moves
+				} else {
+					gc, _ := gen.Game(t, 30)
+					p.FEN, p.Moves = gc.FEN, gc.Moves
+					if gc.FEN == oracle.InitialFEN {
+						p.FEN = ""
+					}
 				}
 			case 2: // endings: mates and stalemates are near
 				gc, _ := gen.Play(t, matingEnding(t), 12, gen.Policy{1, 0, 0, 1, 3, 0, 0, 1, 1, 3})
